@@ -162,8 +162,28 @@ def _final_state(vpsc_mod, solver, V, C, exact):
             "offset": [conv(v.offset) for v in V]}
 
 
+_WARM = []
+
+
+def _warm_up():
+    """The solver lives in a library whose other modules run in the same
+    process: lay a few labels out once (Force -> removeOverlap -> vpsc) before
+    the first solver case, so that anything a layout leaves behind in the
+    process (class attributes, module-level defaults) is in effect, as it is
+    for any real user of the solver inside labella."""
+    if _WARM:
+        return
+    _WARM.append(1)
+    from labella.force import Force
+    from labella.node import Node
+    f = Force({"minPos": 0, "maxPos": 120, "lineSpacing": 2})
+    f.nodes([Node(p, 30) for p in (10, 12, 14, 60, 61, 100)])
+    f.compute()
+
+
 def impl(py):
     from labella import vpsc
+    _warm_up()
 
     def run(conv):
         V = [vpsc.Variable(conv(d), conv(w), conv(s)) for d, w, s in py["vs"]]
@@ -830,6 +850,15 @@ def _is_dag(n, cs):
 def gen(rng, tier):
     for k, (vs, cs) in enumerate(TEST_INSTANCES):
         yield _case("test", vs, cs, True)
+    # nearly feasible chains: every constraint short of its gap by 1e-5 .. 5e-3 (well above the
+    # solver's -1e-10 threshold, far below anything rounding of layout positions would show)
+    for _ in range(60 if tier == "quick" else 600):
+        n = rng.randrange(3, 40)
+        gap = rng.choice([1, 3, 2.5, 10])
+        eps = 10 ** rng.uniform(-5, -2.3)
+        vs = [[gap * i * (1 - eps), 1, 1] for i in range(n)]
+        cs = [[i, i + 1, gap] for i in range(n - 1)]
+        yield _case("near", vs, cs, True, frac=False)
     yield _case("A1", A1[0], A1[1], True)
     # A.1 with mixed weights / scales
     for _ in range(10):
